@@ -26,6 +26,12 @@ def removedByGens : List OpGen → Land → Int
     | .ok l' => removedAlong (gen l) l + removedByGens rest l'
     | .error _ => 0
 
+/-- Domain hypotheses along a run of generators: each generator's history is in its domain at the
+    landscape the generator is applied to (the landscape its predecessors left). -/
+def GensDomainAlong : List OpGen → Land → Prop
+  | [], _ => True
+  | gen :: rest, l => DomainAlong (gen l) l ∧ ∀ l', runOps (gen l) l = .ok l' → GensDomainAlong rest l'
+
 /-- The step's inputs: everything `run_step` reads besides the host rasters, with every random
     outcome made explicit (one entry per suitable cell, in suitable-cell order, where applicable). -/
 structure StepInputs where
